@@ -45,7 +45,7 @@ def judge_blank_probe(ctx, probe):
     for ln, d in res["M"]:
         toks = get_line(probe, ln)
         k = "C07:blankhost:" + key("M", toks, d)
-        ctx.report_failure(k, "p2p/host/blank ignores the error of Stream.SetProtocol: " + what("M", toks, d), {
+        ctx.report_failure(k, "BlankHost probe trace (a protocol scope refusing the stream) rejected by the monitor: " + what("M", toks, d), {
             "kind": "property fails on the blank host's own trace (monitor); blank host is outside the model",
             "case": toks, "decoded": describe(toks), "diag": d})
     ctx.notes.append("blank-host probe: %d of 2 traces rejected by the monitor" % len(res["M"]))
@@ -219,8 +219,11 @@ if __name__ == "__main__":
         "application bytes written on the optimistic path before the handshake completed are not themselves a well-formed multistream token naming a protocol the listener serves (the payload is 9 bytes: 0x00 or 0x20, then the nonce)",
         "concurrent opens: the handler table is fixed during a batch; the interleaving of peerstore reads/AddProtocols is a free parameter of the model (every subset), scope limits inside a concurrent batch are modelled in index order only (the generator keeps limited protocols out of concurrent batches)",
         "limited vs direct: one world reaches the listener only through a circuit-v2 relay (limited connection); the model has the gate of Swarm/Conn.NewStream only (limited and context without WithAllowLimitedConn -> the open fails); waiting for / upgrading to a direct connection is C12's subject; every open goes over the single connection between the two hosts",
-        "the dialer's first operations are not a parameter of the model: whatever their order, a stream bound to a served protocol must work (answer received, or for CloseRead-first the handler's own record of the nonce); Close as the very first operation is not driven (the stream is gone before anything can be observed on it); half-close variants run on the TCP worlds only (mocknet drops a half-closed stream from the connection); a handler whose dialer half-closed without sending answers all the same (sequential opens only)",
+        "the dialer's first operations are not a parameter of the model: whatever their order, a stream bound to a served protocol must work (answer received, or for CloseRead-first the handler's own record of the nonce); Close as the very first operation is driven in the worlds without scope columns (mocknet) and judged on the listener (the handler registered for the protocol runs and finds EOF; the stream is recorded as obtained and closed at once); half-close variants run on the TCP worlds only (mocknet drops a half-closed stream from the connection); a handler whose dialer half-closed without sending answers all the same (sequential opens only)",
         "SetProtocol-again is judged only where real resource managers run (a stream scope attached to a protocol refuses re-attachment and the label must stay); without scopes (mocknet) the label is overwritten by design and the op is not generated",
+        "liveness clause: with a protocol in common the open must produce a working stream unless (a) a requested ID is listed by the dialer's earlier knowledge and no longer served, (b) a requested protocol's scope is at its limit on either side, or (c) the only connection is limited and the caller did not opt in; a harness deadline (4 s per open, 6 s per read) under extreme load would show as a violation",
+        "scope clause is exact: each protocol scope changes by precisely the obtained streams bound to it (refused or failed streams are charged nowhere); per-peer protocol limits are used on the listener for odd IDs with the protocol-wide limit one higher, which with a single remote peer gives the same effective limit the model uses",
+        "a BlankHost dialer (world 6) is modelled as NewStream without the optimistic path; no reconnects there (it does not wait for identify and does not use the knowledge)",
         "reconnect: the model takes the dialer's knowledge on a fresh connection to be what the listener's muxer advertises (identify replaces the peerstore entry and NewStream waits for it); the harness keeps the handler table fixed between a racing reconnect and the open that follows it",
         "p2p/host/blank as a listener without scope limits behaves like the basic host's listener side and runs in the generated histories (world 3; its identify is not served, so no reconnects there); BlankHost.NewStream and scope limits are outside the model; a fixed probe records its traces under a refusing protocol scope on every run (fixed corpus case) and the monitor judges them; repaired in /repo by e4bf9e3, a regression is reported as VIOLATION",
     ]
@@ -234,9 +237,10 @@ if __name__ == "__main__":
         rule="seeded random histories (8-30 ops) over two real hosts, cycling through six worlds: mocknet; TCP+noise+yamux "
              "(libp2p.New) with real resource managers without limits; the same with per-protocol stream limits on both sides; the same "
              "through a circuit-v2 relay (limited connection); mocknet with a BlankHost listener; TCP with a 300 ms negotiation timeout; "
-             "TCP with real resource managers and a BlankHost listener. The dialer's first operations on the returned stream are drawn "
+             "TCP with real resource managers and a BlankHost listener; the same with a BlankHost dialer. Listener limits of odd protocol IDs are "
+             "per-peer protocol limits with a protocol-wide limit one higher. The dialer's first operations on the returned stream are drawn "
              "from {Write,Read | Read under way,Write | SetDeadline,Read,Write | SetDeadline,Write,Read | CloseWrite,Read | "
-             "Write,CloseWrite,Read | CloseRead,Write}; SetProtocol is tried once more on either end of held streams. "
+             "Write,CloseWrite,Read | CloseRead,Write | Close (mocknet worlds, judged on the listener)}; SetProtocol is tried once more on either end of held streams. "
              "Further ops: the connection is replaced below the host (swarm DialPeer from either side) with the next open racing the new "
              "connection's identify; opens whose application goes on exchanging bytes in both directions later (after the negotiation "
              "timeout where it is short). "
